@@ -106,8 +106,40 @@ def _build_subtable(kind, st, names, glyph_map):
         vf1, vf2 = st["vf1"], st["vf2"]
         c1 = [tuple(N[g] for g in c) for c in st["c1"]]
         c2 = [tuple(N[g] for g in c) for c in st["c2"]]
-        pairs = {(c1[i], c2[j]): (_value(v1, vf1), _value(v2, vf2)) for (i, j), (v1, v2) in st["vals"].items()}
-        return B.buildPairPosClassesSubtable(pairs, glyph_map, valueFormat1=vf1, valueFormat2=vf2)
+        pairs = {(c1[i], c2[j]): (_value(v1, vf1), _value(v2, vf2)) for (i, j), (v1, v2) in st["vals"].items() if j is not None}
+        sub = B.buildPairPosClassesSubtable(pairs, glyph_map, valueFormat1=vf1, valueFormat2=vf2)
+        # shapes the builders never emit but the format allows (and other compilers write):
+        # (a) values in the class-0 column (second glyph in none of the second classes)
+        for (i, j), (v1, v2) in st["vals"].items():
+            if j is None:
+                row = sub.ClassDef1.classDefs.get(N[st["c1"][i][0]], 0)
+                rec = sub.Class1Record[row].Class2Record[0]
+                rec.Value1, rec.Value2 = _value(v1, vf1), _value(v2, vf2)
+        # (c) first classes whose whole row is zero: covered glyphs for which this subtable ends the lookup without any
+        #     adjustment (the usual way to write an exception that shields glyphs from a later subtable)
+        have = {i for (i, j) in st["vals"]}
+        for i, cls in enumerate(st["c1"]):
+            if i in have:
+                continue
+            from fontTools.ttLib.tables import otTables as ot2
+
+            rec = ot2.Class1Record()
+            rec.Class2Record = []
+            for _ in range(sub.Class2Count):
+                r2 = ot2.Class2Record()
+                r2.Value1, r2.Value2 = _value(None, vf1), _value(None, vf2)
+                rec.Class2Record.append(r2)
+            sub.Class1Record.append(rec)
+            for g in cls:
+                sub.ClassDef1.classDefs[N[g]] = sub.Class1Count
+            sub.Class1Count += 1
+            sub.Coverage.glyphs = sorted(set(sub.Coverage.glyphs) | {N[g] for g in cls}, key=glyph_map.__getitem__)
+        # (b) a ClassDef1 that also classifies glyphs outside the Coverage (a class definition shared between subtables)
+        for g, i in st.get("cd1_extra", []):
+            row = sub.ClassDef1.classDefs.get(N[st["c1"][i][0]], 0)
+            if row:
+                sub.ClassDef1.classDefs[N[g]] = row
+        return sub
     if kind == "markbase":
         marks = {N[m]: (c, B.buildAnchor(x, y)) for m, (c, x, y) in st["marks"].items()}
         bases = {N[b]: {c: B.buildAnchor(x, y) for c, (x, y) in d.items()} for b, d in st["bases"].items()}
@@ -429,6 +461,14 @@ def make_spec(family, seed, scale=1.0):
                 c = max(c, -(-70000 // (r * rec)))
             c1 = _partition(rnd, rnd.sample(glyphs, min(len(glyphs), r * rnd.randint(1, 4))), r)
             c2 = _partition(rnd, rnd.sample(glyphs, min(len(glyphs), c * rnd.randint(1, 4))), c)
+            if s > 0 and sts[0].get("zero_rows"):
+                # the glyphs the first subtable shields with all-zero rows do have kerning in this one
+                here = {g for cl in c1 for g in cl}
+                for zi in sts[0]["zero_rows"]:
+                    for g in sts[0]["c1"][zi]:
+                        if g not in here:
+                            at = rnd.randrange(len(c1))
+                            c1[at] = tuple(sorted(c1[at] + (g,)))
             dens = rnd.choice([0.03, 0.1, 0.3, 0.6])
             vals = {}
             # block structure makes compaction find clusters: rows are grouped, each group uses a band of columns
@@ -449,7 +489,29 @@ def make_spec(family, seed, scale=1.0):
             for j in range(len(c2)):
                 if not any((i, j) in vals for i in range(len(c1))):
                     vals[(rnd.randrange(len(c1)), j)] = (_val(rnd, vf1), _val(rnd, vf2))
-            sts.append(dict(c1=c1, c2=c2, vals=vals, vf1=vf1, vf2=vf2))
+            st = dict(c1=c1, c2=c2, vals=vals, vf1=vf1, vf2=vf2)
+            shape = rnd.random()
+            if nsub > 1 and s == 0 and rnd.random() < 0.5:
+                # all-zero rows in the first subtable, over glyphs the next subtable would kern
+                used1 = {g for c in c1 for g in c}
+                free = [g for g in glyphs if g not in used1]
+                k0 = rnd.randint(1, 3)
+                if len(free) >= 2 * k0:
+                    st["zero_rows"] = []
+                    for z in range(k0):
+                        c1.append(tuple(sorted(rnd.sample(free, 2))))
+                        free = [g for g in free if g not in c1[-1]]
+                        st["zero_rows"].append(len(c1) - 1)
+            if shape < 0.35:
+                # class-0 column: key (row, None)
+                for i in range(len(c1)):
+                    if rnd.random() < 0.3 and i not in st.get("zero_rows", ()):
+                        vals[(i, None)] = (_val(rnd, vf1), _val(rnd, vf2))
+            if 0.2 < shape < 0.6:
+                used1 = {g for c in c1 for g in c}
+                free = [g for g in glyphs if g not in used1]
+                st["cd1_extra"] = [[g, rnd.randrange(len(c1))] for g in rnd.sample(free, min(len(free), rnd.randint(1, 12)))]
+            sts.append(st)
         spec.update(n=n, table="GPOS", tag="kern", lookups=[dict(kind="pair2", subtables=sts)])
     elif family == "markbase":
         n = _sc(rnd, 2500, 6000, S, 40)
@@ -657,10 +719,23 @@ def probes(spec, seed, n_spec=300, n_rand=150):
                     hits.append([a, b])
                     involved.update((a, b))
                 vk = list(st["vals"])
+                in2 = {g for c in st["c2"] for g in c}
                 for i, j in rnd.sample(vk, min(len(vk), 90)):
-                    a, b = rnd.choice(st["c1"][i]), rnd.choice(st["c2"][j])
+                    a = rnd.choice(st["c1"][i])
+                    if j is None:  # class-0 column: any second glyph outside the second classes
+                        b = rnd.randrange(1, n)
+                        while b in in2:
+                            b = rnd.randrange(1, n)
+                    else:
+                        b = rnd.choice(st["c2"][j])
                     hits.append([a, b])
                     involved.update((a, b))
+                for g, i in st.get("cd1_extra", []):
+                    # a glyph the ClassDef1 classifies although the Coverage leaves it out: this subtable must not kern it
+                    row = [j for (i2, j) in vk if i2 == i and j is not None]
+                    if row:
+                        hits.append([g, rnd.choice(st["c2"][rnd.choice(row)])])
+                        involved.add(g)
             elif k == "markbase":
                 ms, bs = list(st["marks"]), list(st["bases"])
                 for _ in range(80):
